@@ -77,3 +77,6 @@ func (st *StateDB) VerifC09InIndex(addr common.Address) bool {
 	_, ok := st.validatorIndex.data.Load(addr)
 	return ok
 }
+
+// VerifC09LogSize returns the block-wide log counter.
+func (st *StateDB) VerifC09LogSize() uint { return st.logSize }
